@@ -433,6 +433,8 @@ impl Engine {
                 "shrunk": f.shrunk,
                 "seed": self.seed,
                 "tier": self.tier.name(),
+                // true: found by the pass over fast_qr compiled WITHOUT --cfg fast_qr_verif (check.sh replays it there)
+                "plain_build": cfg!(fqv_plain),
             });
             let _ = std::fs::write(&path, serde_json::to_string_pretty(&doc).unwrap());
             println!("VIOLATION property={} replay={}", self.id, path);
@@ -489,14 +491,42 @@ impl Engine {
             "wall_s": (wall * 1000.0).round() / 1000.0,
             "violations": failures.len(),
         });
-        let dir = format!("{}/evidence", verif_dir());
-        let _ = std::fs::create_dir_all(&dir);
-        let path = format!("{}/{}.json", dir, self.id);
-        let tmp = format!("{}.tmp", path);
-        std::fs::write(&tmp, serde_json::to_string_pretty(&ev).unwrap()).expect("write evidence");
-        std::fs::rename(&tmp, &path).expect("rename evidence");
+        // The pass over fast_qr compiled without the verification flag (binary built with --cfg fqv_plain) leaves a
+        // summary for the main pass, which runs right after it and embeds it in the evidence file.
+        let plain_dir = format!("{}/harness/plain_pass", verif_dir());
+        let plain_path = format!("{}/{}.json", plain_dir, self.id);
+        let mut ev = ev;
+        if cfg!(fqv_plain) {
+            let _ = std::fs::create_dir_all(&plain_dir);
+            let summary = json!({
+                "what": "the same generated cases run against fast_qr compiled WITHOUT --cfg fast_qr_verif (no hooks): what the checks decide must not depend on the flag their hooks are guarded by",
+                "seed": self.seed,
+                "size": self.tier.name(),
+                "evaluations": g.evaluations,
+                "distinct_nontrivial": g.nontrivial.len(),
+                "violations": failures.len(),
+                "wall_s": (wall * 1000.0).round() / 1000.0,
+            });
+            std::fs::write(&plain_path, serde_json::to_string_pretty(&summary).unwrap()).expect("write plain-pass summary");
+        } else {
+            if let Ok(text) = std::fs::read_to_string(&plain_path) {
+                if let Ok(v) = serde_json::from_str::<Value>(&text) {
+                    if v.get("seed").and_then(|s| s.as_u64()) == Some(self.seed) {
+                        ev["coverage"]["plain_build_pass"] = v;
+                    }
+                }
+                let _ = std::fs::remove_file(&plain_path);
+            }
+            let dir = format!("{}/evidence", verif_dir());
+            let _ = std::fs::create_dir_all(&dir);
+            let path = format!("{}/{}.json", dir, self.id);
+            let tmp = format!("{}.tmp", path);
+            std::fs::write(&tmp, serde_json::to_string_pretty(&ev).unwrap()).expect("write evidence");
+            std::fs::rename(&tmp, &path).expect("rename evidence");
+        }
         println!(
-            "{} {} seed={} evaluations={} distinct_nontrivial={} violations={} known_excluded={} wall={:.1}s",
+            "{}{} {} seed={} evaluations={} distinct_nontrivial={} violations={} known_excluded={} wall={:.1}s",
+            if cfg!(fqv_plain) { "[fast_qr without the verification flag] " } else { "" },
             self.id,
             self.tier.name(),
             self.seed,
